@@ -26,7 +26,7 @@ Expected(b) ==
       [] b = "events2" -> "events:2"
       [] b \in {"collection", "reply-panic", "events-collection"} -> "collection"
       [] b \in {"error", "notfound", "twice", "events-notfound"} -> "error:system.notFound"
-      [] b \in {"panic", "panic-nil", "events-panic", "badjson", "badnoq", "collection-panic-marshal", "error-panic-marshal"} -> "error:system.internalError"
+      [] b \in {"panic", "panic-nil", "events-panic", "badjson", "badnoq", "collection-panic-marshal", "error-panic-marshal", "panic-typednil"} -> "error:system.internalError"
       [] b = "panic-err" -> "error:system.invalidQuery"
       [] OTHER -> "unknown-behaviour"
 Clause(c) ==
